@@ -13,15 +13,22 @@
       packet (`sizeAfterReserve … ≤ room`); otherwise it is counted as discarded.  (This is the check
       whose absence was finding F8, repaired in /repo.)
     * no_undefined_shift — no shift of the bit-field macros has an amount ≥ its operand width.
-  `stores_in_bounds_partial` (DESIGN.md): the global statement "no history logs an out-of-bounds
-  store" additionally needs (i) `size_eq_advance` / `ser_stores_within` for whole operation trees
-  (the serialise pass advances exactly by the size pass and stores only inside that span), (ii) the
-  position invariant `open → at ≤ packetSize = 8·bufBytes`, (iii) header+context ≤ buffer (property
-  precondition) and no 2^32 wrap.  Those are not proved yet; on the implementation the property is
-  decided by the guard page (byte-granular), the C assertion and sanitizers on every history run.
+    * size_pass_is_serialise_advance — for every user root structure (contexts, payload) the `_er_size_*` pass
+      and the `_serialize_er_*` pass of the tree `_OpBuilder` builds end at the same `at` (both in `uint32_t`
+      arithmetic; no hypothesis on values or positions);
+    * record_within_reserved_space — if that size pass says the structure ends inside the buffer and its true
+      (unbounded) end does not wrap `uint32_t`, serialising it performs **no store outside the buffer** and ends
+      exactly at the computed position (`fits_implies_in_bounds`, `size_pass_exact`: Proofs/SizeSer.lean).
+  `stores_in_bounds_partial` (DESIGN.md): the global statement "no history logs an out-of-bounds store" additionally
+  needs (ii) the position invariant `open → at ≤ packetSize = 8·bufBytes` along every history of the runtime
+  model, (iii) header+context ≤ buffer (property precondition) for the packet opening/closing writes (specialised
+  templates), and the same two theorems for the event record header root.  Those are not proved; on the
+  implementation the property is decided by the guard page (byte-granular), the C assertion and sanitizers on every
+  history run.
 -/
 import BVM.Proofs.SerFrame
 import BVM.Proofs.RtSimp
+import BVM.Proofs.SizeSer
 namespace BVM
 
 theorem stores_are_logged_truthfully (env : SerEnv) (sc : Scalar) (oib : Option Nat) (v : Int) (s : SerSt) :
@@ -56,7 +63,54 @@ theorem no_undefined_shift (isLE : Bool) (W start len : Nat) (hW : 2 ≤ W) :
     ∀ p ∈ bfShifts isLE W start len, p.2 < p.1 :=
   bfShifts_ok isLE W start len hW
 
+/-- `_er_size_*` and `_serialize_er_*` end at the same position, whatever the values and the starting state -/
+theorem size_pass_is_serialise_advance (env : SerEnv) (pfx : String) (args : Args) (S : Struct) (hS : RootOK S) (s : SerSt) :
+    sizeRoot pfx (buildRoot specNone S) args s.at_ = (serRoot env pfx (buildRoot specNone S) args s).at_ :=
+  size_eq_ser env pfx args S hS s
+
+/-- a structure whose true end (`structEndN`: unbounded arithmetic, what a reader computes) is inside the buffer is
+    serialised without any store outside the buffer -/
+theorem fits_implies_in_bounds (env : SerEnv) (pfx : String) (args : Args) (S : Struct) (hS : RootOK S) (s : SerSt) (L : Nat)
+    (hsmall : 8 * L + S.align ≤ 2 ^ 32) (hlen : s.buf.length = L) (h0 : s.oob = false)
+    (hfit : structEndN pfx args S s.at_ ≤ 8 * L) :
+    (serRoot env pfx (buildRoot specNone S) args s).oob = false ∧
+    (serRoot env pfx (buildRoot specNone S) args s).at_ = structEndN pfx args S s.at_ :=
+  struct_in_bounds env pfx args S hS s L hsmall hlen h0 hfit
+
+/-- while the true end does not wrap `uint32_t`, the size pass computes it exactly -/
+theorem size_pass_exact (pfx : String) (args : Args) (S : Struct) (hS : RootOK S) (a : Nat)
+    (h : structEndN pfx args S a + S.align + 8 ≤ 2 ^ 32) :
+    sizeRoot pfx (buildRoot specNone S) args a = structEndN pfx args S a := size_exact pfx args S hS a h
+
+/-- **the check the tracer makes is the right one**: if the generated size pass says the structure ends inside the
+    buffer (and the true end does not wrap), the generated serialisation stores nothing outside the buffer -/
+theorem record_within_reserved_space (env : SerEnv) (pfx : String) (args : Args) (S : Struct) (hS : RootOK S) (s : SerSt)
+    (L : Nat) (hsmall : 8 * L + S.align ≤ 2 ^ 32) (hlen : s.buf.length = L) (h0 : s.oob = false)
+    (hnw : structEndN pfx args S s.at_ + S.align + 8 ≤ 2 ^ 32)
+    (hfit : sizeRoot pfx (buildRoot specNone S) args s.at_ ≤ 8 * L) :
+    (serRoot env pfx (buildRoot specNone S) args s).oob = false := by
+  rw [size_exact pfx args S hS s.at_ hnw] at hfit
+  exact (struct_in_bounds env pfx args S hS s L hsmall hlen h0 hfit).1
+
 /-! Non-vacuity -/
+def c02S : Struct := ⟨1, [⟨"n", .el (.sc (.int false 8 8))⟩, ⟨"a", .darr "n" (.sc (.int false 5 8))⟩,
+                           ⟨"t", .el (.sc (.int true 4 1))⟩, ⟨"s", .el (.sc .str)⟩]⟩
+def c02Args : Args := [("p_n", [.num 2]), ("p_a", [.num 5, .num 33]), ("p_t", [.num (-3)]), ("p_s", [.str [104, 105]])]
+def c02St (n : Nat) : SerSt := ⟨List.replicate n 255, 3, [], [], false, []⟩
+example : RootOK c02S := ⟨⟨3, by decide⟩, by
+  intro m hm
+  simp only [c02S, List.mem_cons, List.mem_nil_iff, or_false] at hm
+  rcases hm with rfl | rfl | rfl | rfl
+  · exact ⟨by simp, ⟨3, rfl⟩⟩
+  · exact ⟨by simp, ⟨3, rfl⟩⟩
+  · exact ⟨by simp, ⟨0, rfl⟩⟩
+  · exact ⟨by simp, ⟨3, rfl⟩⟩⟩
+/-- the record ends at bit 64 when written from bit 3: an 8-byte buffer is enough, a 7-byte one is not — and the
+    size pass says so -/
+example : structEndN "p" c02Args c02S 3 = 64 ∧ sizeRoot "p" (buildRoot specNone c02S) c02Args 3 = 64 := by decide +kernel
+example : (serRoot ⟨.le, true, [], 0, 0, 0, 0, 0⟩ "p" (buildRoot specNone c02S) c02Args (c02St 8)).oob = false := by decide +kernel
+example : (serRoot ⟨.le, true, [], 0, 0, 0, 0, 0⟩ "p" (buildRoot specNone c02S) c02Args (c02St 7)).oob = true := by decide +kernel
+
 example : (({ buf := [0, 0], at_ := 8, saved := [], stores := [], oob := false, leaves := [] } : SerSt).store 1 2 [0, 1, 2]).oob = true := by
   decide
 
@@ -66,4 +120,8 @@ example : (({ buf := [0, 0], at_ := 8, saved := [], stores := [], oob := false, 
 #print axioms oob_halts
 #print axioms record_checked_before_write
 #print axioms no_undefined_shift
+#print axioms size_pass_is_serialise_advance
+#print axioms fits_implies_in_bounds
+#print axioms size_pass_exact
+#print axioms record_within_reserved_space
 end BVM
